@@ -43,6 +43,10 @@ NAME = 'c07_tokenizer'
 ROBOT = 'robot'
 PREFIX = '@' + ROBOT
 ADMINS = ['admin', 'author_admin']
+CLAUSES = ('tokenizer', 'privileged_needs_admin_not_author',
+           'authored_needs_author', 'unknown_blocks', 'wrong_person_blocks',
+           'not_addressed_no_effect', 'no_partial_application',
+           'outcome_mismatch')
 BLOCKING = ('UnknownCommand', 'NotEnoughCredentials', 'NotAuthor',
             'IncorrectCommandSyntax')
 
@@ -1067,6 +1071,8 @@ def run(tier: str = 'quick', seed: int = 0, jobs: int = 16) -> dict:
             sigs.items(), key=lambda kv: -kv[1][0])[:200]},
         'n_failure_signatures': len(sigs),
         'failure_groups': dict(sorted(groups.items(), key=lambda kv: -kv[1])),
+        'clause_failures': {c: sum(v[0] for k, v in sigs.items()
+                                   if k.split('|')[0] == c) for c in CLAUSES},
         'samples': picked[:5],
         'exhaustive': False,
         'exhaustive_note': 'part (a) and comment lists of length <= 2 are '
